@@ -104,8 +104,10 @@ func Markers(ctx context.Context) []string {
 		m = append(m, "sub")
 	}
 	if v, ok := ctx.Value(rec.KeyItem).(int); ok {
-		if v < 0 {
+		if v == -1 {
 			m = append(m, "t")
+		} else if v < 0 {
+			m = append(m, fmt.Sprintf("t%d", -v))
 		} else {
 			m = append(m, fmt.Sprintf("i%d", v))
 		}
@@ -555,5 +557,13 @@ func Canon(v any) string {
 	case lo.Tuple2[any, any]:
 		return "[" + Canon(x.A) + "," + Canon(x.B) + "]"
 	}
+	if ExtraCanon != nil {
+		if s, ok := ExtraCanon(v); ok {
+			return s
+		}
+	}
 	return fmt.Sprintf("?%T:%v", v, v)
 }
+
+// ExtraCanon lets other packages render further value types.
+var ExtraCanon func(v any) (string, bool)
